@@ -280,7 +280,7 @@ class UnionParser(AbstractParser[Tuple[Type[T], ...], Optional[T]]):
         return type(item) in self.base_type
 
     def __call__(self, o: Any) -> Optional[T]:
-        if o is None:
+        if o is None and NoneType in self.base_type:
             return o
 
         for parser in self.parsers:
